@@ -876,6 +876,7 @@ type ModLoc struct {
 	SetE, SetOff, SetLen T
 	Everything bool // `modifies everything`: no frame at all
 	Guard      T    // the location exists only if this holds ("" = always)
+	Except     []string // with Everything: heap key prefixes that are NOT modified
 }
 
 // designator evaluates a frame designator. A location reached through a nil
@@ -903,6 +904,16 @@ func (e *Env) designator(x ast.Expr) []ModLoc {
 func (e *Env) designator0(x ast.Expr) []ModLoc {
 	if id, ok := x.(*ast.Ident); ok && id.Name == "everything" {
 		return []ModLoc{{Key: "*", Everything: true}}
+	}
+	if ce, ok := x.(*ast.CallExpr); ok {
+		if id, ok := ce.Fun.(*ast.Ident); ok && id.Name == "everythingExcept" {
+			m := ModLoc{Key: "*", Everything: true}
+			for _, a := range ce.Args {
+				p, _ := strconv.Unquote(a.(*ast.BasicLit).Value)
+				m.Except = append(m.Except, p)
+			}
+			return []ModLoc{m}
+		}
 	}
 	switch x := x.(type) {
 	case *ast.ParenExpr:
